@@ -338,6 +338,16 @@ class BondMaker:
                     continue
                 self.find_bonds_for_atoms_disjoint(value, value2)
 
+        # A hydrogen within bonding distance of two atoms (a supplied proton
+        # in a very short hydrogen bond) is bonded to both. Callers take
+        # bonded_atoms[0] as the atom it belongs to: make that the nearest
+        # one, not the one the box search happened to visit first.
+        sq_dist = propka.calculations.squared_distance
+        for atom in atoms:
+            if atom.element == 'H' and len(atom.bonded_atoms) > 1:
+                atom.bonded_atoms.sort(
+                    key=lambda other, atom=atom: sq_dist(atom, other))
+
     @staticmethod
     def has_bond(atom1, atom2):
         """Look for bond between two atoms.
